@@ -18,3 +18,25 @@ int run_c17v(const Args& a, Recorder& rec) {
 }
 }
 REGISTER_VX("C17V", run_c17v);
+// free-running OpenMP team under ThreadSanitizer (tsan build): the serialising scheduler blinds a race detector, so the
+// loop bodies of ComputeAndClearWrap::run are run here on really concurrent threads; a TSan report is a C06 violation.
+namespace {
+int run_c06t(const Args& a, Recorder& rec) {
+    long idx = 0;
+    for (int model : { 1, 3 }) for (int T : { 2, 4, 16 }) for (int clear = 0; clear < 2; ++clear) for (int phase : { 2, 3 }) {
+        if ((idx++ % a.nshards) != a.shard) continue; if (model == 3 && (T == 16 || phase == 3) && !a.thorough()) continue;
+        VxConfig c; c.harness = "c06"; c.p["model"] = model; c.p["P"] = 1; c.p["phase"] = phase; c.p["comps"] = 2; c.p["clear"] = clear; c.p["split"] = 0; c.p["rdv"] = 0; c.p["omp"] = T; c.p["ompord"] = 0;
+        marker("C06 free-running OpenMP team " + c.str()); VxHarness h = vx_factories().at("c06")(c); h.mpi.omp_free = true; h.reset();
+        // GCC's ThreadSanitizer does not instrument aggregate (std::complex) stores, so besides its reports the values are compared too,
+        // and each configuration is repeated: on race-free code every repetition gives the single-thread values, so this can never alarm falsely
+        vmpi::Outcome o; std::string sig, viol; int reps = a.thorough() ? 40 : 12;
+        for (int rep = 0; rep < reps && viol.empty(); ++rep) { h.reset(); o = vmpi::run(h.mpi, h.body, [&](size_t, const std::vector<int>& en, const std::vector<char>&, uint64_t, uint64_t) { return en[0]; }); if (o.kind != vmpi::Outcome::OK) break; viol = h.oracle(o, sig); rec.evaluations++; rec.traces++; }
+        rec.states++; rec.transitions += o.points.size(); rec.nontrivial++;
+        rec.sample("free-running team of " + std::to_string(T) + " threads: " + c.str() + " -> " + vx_kind_name(o.kind) + (viol.empty() ? "" : " oracle: " + viol));
+        if (o.kind != vmpi::Outcome::OK) rec.violation("C06:openmp-free:" + std::string(vx_kind_name(o.kind)), o.detail, c.str());
+        else if (!viol.empty()) rec.violation("C06:openmp-free:result-differs", "with " + std::to_string(T) + " concurrently running OpenMP threads: " + viol, c.str());
+    }
+    return 0;
+}
+}
+REGISTER_VX("C06T", run_c06t);
